@@ -1017,8 +1017,7 @@ func runPool(c *sim.Ctx) {
 			c.Count("sched.drain_release")
 		} else {
 			n := len(parked)
-			v := c.T.Int("sched", 8*n+2) / 8
-			if v >= n {
+			if c.T.Chance("sched-advance", 1, 12) {
 				d := []time.Duration{time.Millisecond, 300 * time.Millisecond, 1100 * time.Millisecond, 3100 * time.Millisecond}[c.T.Int("adv", 4)]
 				c.Step++
 				c.Count("sched.time_advance")
@@ -1027,7 +1026,17 @@ func runPool(c *sim.Ctx) {
 				advance(d)
 				continue
 			}
-			pick = v
+			// Rendezvous choice: the tape value and each parked goroutine's identity give a score, the lowest score
+			// runs.  Unlike an index into the list, this choice does not shift when some unrelated goroutine is or is
+			// not parked (the Go runtime's pick among several ready select cases makes such differences between two
+			// executions of one tape), so replays stay on course.
+			v := c.T.Draw("sched", 1<<32)
+			best := uint64(0)
+			for i, p := range parked {
+				if sc := rendezvous(v, p.name, p.label); i == 0 || sc < best {
+					best, pick = sc, i
+				}
+			}
 		}
 		p := parked[pick]
 		c.Step++
@@ -1046,6 +1055,10 @@ func runPool(c *sim.Ctx) {
 	}
 	c.SimNanos = int64(time.Since(start))
 	w.account()
+	if d := os.Getenv("VERIF_E2_DUMP"); d != "" {
+		// development aid: the decision log of every run, to compare two processes line by line
+		_ = os.WriteFile(fmt.Sprintf("%s/%d.log", d, c.Seed), []byte(strings.Join(c.LogLines, "\n")+"\n"), 0o644)
+	}
 	if c.Failed() {
 		// goroutines of a failed run may never finish: the worker leaves the process
 		if c.Bail != nil {
@@ -1054,6 +1067,24 @@ func runPool(c *sim.Ctx) {
 	}
 	schedOff()
 	strand.VerifYield, gnet.VerifSpin, gnet.VerifListen, gnet.VerifDialTimeout = nil, nil, nil, nil
+}
+
+func rendezvous(v uint64, name, label string) uint64 {
+	h := uint64(1469598103934665603) ^ (v * 0x9e3779b97f4a7c15)
+	for i := 0; i < len(name); i++ {
+		h ^= uint64(name[i])
+		h *= 1099511628211
+	}
+	h ^= 0xff
+	h *= 1099511628211
+	for i := 0; i < len(label); i++ {
+		h ^= uint64(label[i])
+		h *= 1099511628211
+	}
+	h ^= h >> 29
+	h *= 0xbf58476d1ce4e5b9
+	h ^= h >> 32
+	return h
 }
 
 func labelKind(l string) byte {
